@@ -891,7 +891,7 @@ package flyt
 //@   ghost i int = 0; cnt [int]int = zeroArr([int]int); outV [int]any = zeroArr([int]any); outE [int]error = zeroArr([int]error); stopped bool = false
 //@   on call runExecWithRetries(c, n, it) returns (v, e)
 //@     requires 0 <= i && i < len(items)
-//@     requires [C06] c == ctx && n == node && it == items[i]
+//@     requires [C02,C06,C07] c == ctx && n == node && it == items[i]
 //@     requires [C07] cnt[i] == 0
 //@     requires [C09] !stopped
 //@     requires [C11] !cancelled
@@ -1051,7 +1051,7 @@ package flyt
 //@   assigns contents(*results), *shouldStop
 //@   ghost cnt int = 0; ov any = nil; oe error = nil; sawStop bool = false
 //@   on call runExecWithRetries(c, n, it) returns (v, e)
-//@     requires [C06,C07] cnt == 0 && c == *ctx && n == *node && it == *itm
+//@     requires [C02,C06,C07] cnt == 0 && c == *ctx && n == *node && it == *itm
 //@     requires [C09] !(old(*shouldStop) && *errorHandling == "stop")
 //@     requires [C11] !cancelled
 //@     effect cnt = 1; ov = v; oe = e
@@ -1076,7 +1076,7 @@ package flyt
 //@     requires [C06,C07] *binding(task, "runBatchConcurrent$1", idx) == i && *binding(task, "runBatchConcurrent$1", itm) == items[i] && *binding(task, "runBatchConcurrent$1", results) == results
 //@     requires [C06,C07] binding(task, "runBatchConcurrent$1", idx) != binding(task, "runBatchConcurrent$1", shouldStop) && fresh(binding(task, "runBatchConcurrent$1", idx)) && fresh(binding(task, "runBatchConcurrent$1", itm))
 //@     requires [C09] binding(task, "runBatchConcurrent$1", mu) == alloc(sync.Mutex, 1) && binding(task, "runBatchConcurrent$1", shouldStop) == alloc(bool, 1) && *binding(task, "runBatchConcurrent$1", errorHandling) == errorHandling
-//@     requires [C11] *binding(task, "runBatchConcurrent$1", ctx) == ctx && *binding(task, "runBatchConcurrent$1", node) == node
+//@     requires [C02,C05,C07,C11] *binding(task, "runBatchConcurrent$1", ctx) == ctx && *binding(task, "runBatchConcurrent$1", node) == node
 //@     effect i = i
 //@   on call (*WorkerPool).Wait(p)
 //@     requires [C06,C07,C09,C11] p == pool && i == len(items) && !waited
